@@ -50,9 +50,14 @@ type FuncContract struct {
 	Lemmas   []string
 	File     string
 	Line     int
+	// `regexp <var>` blocks: a contract on a package-level compiled expression
+	Regexp      bool
+	LinesPred   string   // `lines <pred>`: the expression is (?m)^X$ and every string of X satisfies the spec predicate
+	AcceptLines []string // `accepts "<s>"`: strings X must match
 }
 
 var (
+	reRegexp = regexp.MustCompile(`^regexp\s+([A-Za-z0-9_]+)\s*$`)
 	reFunc = regexp.MustCompile(`^func\s+([A-Za-z0-9_.]+)\s*\(([^)]*)\)\s*(?:\(([^)]*)\))?\s*(.*)$`)
 	reTag  = regexp.MustCompile(`\[(C[0-9]{2,3}|follows)\]`)
 	reLoop = regexp.MustCompile(`^loop\s+([0-9]+)`)
@@ -185,6 +190,12 @@ func parseContractFile(path, pkgDir string) ([]*FuncContract, error) {
 			out = append(out, cur)
 			continue
 		}
+		if m := reRegexp.FindStringSubmatch(line); m != nil {
+			cur = &FuncContract{Pkg: pkgDir, Name: "regexp:" + m[1], Regexp: true, Loops: map[string]*LoopSpec{}, File: path, Line: ln}
+			curLoop = ""
+			out = append(out, cur)
+			continue
+		}
 		if cur == nil {
 			return nil, fmt.Errorf("%s:%d: %q outside func", path, ln, line)
 		}
@@ -266,6 +277,14 @@ func parseContractFile(path, pkgDir string) ([]*FuncContract, error) {
 			cur.Trusted = true
 		case "uses":
 			cur.Lemmas = append(cur.Lemmas, splitNames(rest)...)
+		case "lines":
+			cur.LinesPred = rest
+		case "accepts":
+			if u, err := strconv.Unquote(rest); err == nil {
+				cur.AcceptLines = append(cur.AcceptLines, u)
+			} else {
+				return nil, fmt.Errorf("%s:%d: accepts wants a quoted Go string", path, ln)
+			}
 		default:
 			return nil, fmt.Errorf("%s:%d: unknown clause keyword %q", path, ln, kw)
 		}
